@@ -324,6 +324,30 @@ fn paused_cases(o: &mut Out, b: &Built, rng: &mut Rng) {
     }
 }
 
+/// the header an IHDR with a CRC mismatch declares must not be reported: Decoder::read_header_info() is a result too
+fn header_info_cases(o: &mut Out, b: &Built, rng: &mut Rng) {
+    let chunks = parse(&b.bytes).unwrap();
+    for kind in 0..2 {
+        let bit = rng.below(32);
+        let bytes = with_bad_crc(&chunks, 0, |c| { if kind == 0 { c.crc = Some(c.crc_value() ^ (1 << bit)); } else { c.data[3] ^= 0x01; } });
+        for sched in [vec![0usize], vec![1], vec![7, 30]] {
+            o.mark(&format!("header-info bad-crc-ihdr {} kind {} sched {:?} {}", b.name, kind, sched, hex(&bytes)));
+            let r = guarded(|| {
+                let mut d = open_decoder(PieceReader::new(bytes.clone(), &sched), Opts::default(), 0, None);
+                d.read_header_info().map(|i| format!("{}x{}", i.width, i.height)).map_err(|e| res_err(&e))
+            });
+            o.direct_checks += 1;
+            o.count("header-info-of-ihdr-with-crc-mismatch");
+            match r {
+                Err(m) => o.violation(viol("panic", "panic", vec![("file", jstr(&b.name)), ("panic", jstr(&m))])),
+                Ok(Ok(dim)) => o.violation(viol("header-reported-from-ihdr-with-crc-mismatch", "header-reported-from-ihdr-with-crc-mismatch", vec![("file", jstr(&b.name)), ("what", jstr(if kind == 0 { "CRC field changed" } else { "width changed, CRC stale" })),
+                    ("read_header_info", jstr(&format!("Ok({})", dim))), ("bytes", jstr(&hex(&bytes)))])),
+                Ok(Err(_)) => {}
+            }
+        }
+    }
+}
+
 pub fn run(a: &Args) {
     let mut o = Out::new(&a.out);
     let mut rng = Rng::new(a.seed);
@@ -340,6 +364,7 @@ pub fn run(a: &Args) {
         ignore_crc_cases(&mut o, &b, &mut rng);
         adler_cases(&mut o, &b, &mut rng);
         if fi % 3 == 0 { paused_cases(&mut o, &b, &mut rng); }
+        if fi % 4 == 0 { header_info_cases(&mut o, &b, &mut rng); }
     }
     o.mark("done");
     o.finish();
